@@ -73,3 +73,74 @@ impl Src for VecSrc {
         }
     }
 }
+
+/// Native witness search: enumerates every assignment of the scenario's draws (odometer over
+/// the domain sizes the draws announce). Used to extract a concrete, natively reproducing
+/// witness for a violation CBMC has decided exists, when the scenario space is small —
+/// CBMC's own trace generation takes 15-20 minutes on the handle-level formulas.
+#[cfg(not(kani))]
+pub struct EnumSrc {
+    pub vals: Vec<u8>,
+    pub sizes: Vec<u16>,
+    pub pos: usize,
+    pub violated_assume: bool,
+    pub not_enumerable: bool,
+}
+
+#[cfg(not(kani))]
+impl EnumSrc {
+    pub fn new() -> Self {
+        EnumSrc {
+            vals: Vec::new(),
+            sizes: Vec::new(),
+            pos: 0,
+            violated_assume: false,
+            not_enumerable: false,
+        }
+    }
+    fn draw(&mut self, size: u16) -> u8 {
+        if self.pos >= self.vals.len() {
+            self.vals.push(0);
+            self.sizes.push(size);
+        }
+        self.sizes[self.pos] = size;
+        let v = self.vals[self.pos];
+        self.pos += 1;
+        v
+    }
+    /// advance to the next assignment; false when the space is exhausted
+    pub fn next(&mut self) -> bool {
+        self.pos = 0;
+        self.violated_assume = false;
+        let mut i = self.vals.len();
+        while i > 0 {
+            i -= 1;
+            if (self.vals[i] as u16) + 1 < self.sizes[i] {
+                self.vals[i] += 1;
+                self.vals.truncate(i + 1);
+                self.sizes.truncate(i + 1);
+                return true;
+            }
+        }
+        false
+    }
+}
+
+#[cfg(not(kani))]
+impl Src for EnumSrc {
+    fn u8(&mut self) -> u8 {
+        self.not_enumerable = true;
+        self.draw(256)
+    }
+    fn bool(&mut self) -> bool {
+        self.draw(2) == 1
+    }
+    fn below(&mut self, n: u8) -> u8 {
+        self.draw(n as u16)
+    }
+    fn assume(&mut self, c: bool) {
+        if !c {
+            self.violated_assume = true;
+        }
+    }
+}
